@@ -60,20 +60,44 @@ package server
 // a hello only to Up, and only when its three-way TLV lists this system and
 // circuit and the adjacency is not Up; or to Down, and only when the TLV does
 // not list them and the adjacency is Up. A hello without the TLV changes nothing.
+// Which three-way TLV a hello carries is a function of its TLV list.
+//@ import "github.com/bio-routing/bio-rd/protocols/isis/types"
+//@ contract getP2PAdjTLV
+//@   props C31
+//@   trusted the three-way adjacency TLV found in a TLV list (presence, neighbor system ID, neighbor circuit ID) is a function of that list; the list walk with its type assertion is not verified
+//@   ensures (result == nil) == (verif_uf_u64("adjTLVpresent", verif_arrayof(tlvs)) == 0)
+//@   ensures result != nil ==> result.NeighborSystemID == verif_uf_val[types.SystemID]("adjTLVsys", verif_arrayof(tlvs)) && result.NeighborExtendedLocalCircuitID == uint32(verif_uf_u64("adjTLVcirc", verif_arrayof(tlvs)))
+//@   modifies nothing
+
+//@ spec
+//@ func spec_tlvPresent(hello *packet.P2PHello) bool {
+//@ 	return verif_uf_u64("adjTLVpresent", verif_arrayof(hello.TLVs)) != 0
+//@ }
+//@ func spec_tlvListsSelf(n *neighbor, hello *packet.P2PHello) bool {
+//@ 	return verif_uf_val[types.SystemID]("adjTLVsys", verif_arrayof(hello.TLVs)) == n.nm.netIfa.srv.nets[0].SystemID && uint32(verif_uf_u64("adjTLVcirc", verif_arrayof(hello.TLVs))) == uint32(n.nm.netIfa.devStatus.GetIndex())
+//@ }
+//@ end
+
 //@ contract (*neighbor).processP2PHello
 //@   props C31
 //@   nosafety
 //@   requires n != nil && hello != nil
+//@   old st0 uint8 = n.state
+//@   ensures spec_tlvPresent(hello) && spec_tlvListsSelf(n, hello) ==> n.state == packet.P2PAdjStateUp
+//@   ensures spec_tlvPresent(hello) && !spec_tlvListsSelf(n, hello) ==> n.state != packet.P2PAdjStateUp
+//@   ensures !spec_tlvPresent(hello) ==> n.state == st0
 //@   call setState args s uint8 vars p2pAdjState *packet.P2PAdjacencyStateTLV requires p2pAdjState != nil && ((s == packet.P2PAdjStateUp && n.state != packet.P2PAdjStateUp && n.p2pAdjTLVContainsSelf(p2pAdjState)) || (s == packet.P2PAdjStateDown && n.state == packet.P2PAdjStateUp && !n.p2pAdjTLVContainsSelf(p2pAdjState)))
 
-// The periodic check takes an adjacency Down only from Up, and gives a
-// neighbor up only when it is Down.
+// The periodic check takes an adjacency Down only from Up, and never gives up
+// a neighbor that is Up (the property lets a neighbor disappear whether or not
+// it ever came Up, so Init is not excluded here; see DESIGN.md, C31, for what
+// the code does with a neighbor that stays in Init).
 //@ contract (*neighbor).adjChecker
 //@   props C31
 //@   nosafety
 //@   requires n != nil
 //@   call down vars state uint8 requires state == packet.P2PAdjStateUp
-//@   call dispose vars state uint8 requires state == packet.P2PAdjStateDown
+//@   call dispose vars state uint8 requires state != packet.P2PAdjStateUp
 
 // A neighbor created from a first hello is not Up: it starts in Init, with the
 // sender's system ID and address.
@@ -110,3 +134,115 @@ package server
 //@   old nb *neighbor = nm.neighbors[src]
 //@   ensures had ==> result == nb && nm.neighbors[src] == nb
 //@   ensures !had ==> result == nil && spec_hasNb(nm, src) && nm.neighbors[src] != nil && nm.neighbors[src].state == packet.P2PAdjStateInit
+
+// Property C32 (the part one received LSP decides): after an LSP has been
+// processed the database holds, for its LSP ID, a copy whose sequence number is
+// the higher of the stored and the received one - the received LSP itself when
+// it is newer or the ID was unknown, the stored entry otherwise - and no other
+// LSP ID is touched. Flags (ISO 10589 7.3.15/16): a newer LSP is acknowledged
+// to the sender (SSN set, SRM cleared on that interface); the same LSP likewise;
+// an older one is answered with the stored copy (SRM set unless the interface
+// cannot send, SSN cleared).
+//@ spec
+//@ func spec_hasLSP(l *lsdb, id packet.LSPID) bool {
+//@ 	_, ok := l.lsps[id]
+//@ 	return ok
+//@ }
+//@ func spec_ssn(e *lsdbEntry, ifa *netIfa) bool {
+//@ 	_, ok := e.ssnFlags[ifa]
+//@ 	return ok
+//@ }
+//@ func spec_srm(e *lsdbEntry, ifa *netIfa) bool {
+//@ 	_, ok := e.srmFlags[ifa]
+//@ 	return ok
+//@ }
+//@ end
+
+//@ contract (*lsdb).processNewerLSPDU
+//@   props C32
+//@   nosafety
+//@   requires l != nil && lspdu != nil && l.lsps != nil && ifa != nil
+//@   logical g packet.LSPID
+//@   old hadg bool = spec_hasLSP(l, g)
+//@   old eg *lsdbEntry = l.lsps[g]
+//@   ensures spec_hasLSP(l, lspdu.LSPID) && l.lsps[lspdu.LSPID] != nil && l.lsps[lspdu.LSPID].lspdu == lspdu
+//@   ensures spec_ssn(l.lsps[lspdu.LSPID], ifa) && !spec_srm(l.lsps[lspdu.LSPID], ifa)
+//@   ensures g != lspdu.LSPID ==> spec_hasLSP(l, g) == hadg && l.lsps[g] == eg
+
+//@ contract (*lsdbEntry).processSameLSPDU
+//@   props C32
+//@   nosafety
+//@   requires l != nil && l.ssnFlags != nil && l.srmFlags != nil && verif_mapid(l.ssnFlags) != verif_mapid(l.srmFlags)
+//@   old d *packet.LSPDU = l.lspdu
+//@   ensures spec_ssn(l, ifa) && !spec_srm(l, ifa) && l.lspdu == d
+
+//@ contract (*lsdbEntry).newerLocalLSPDU
+//@   props C32
+//@   nosafety
+//@   requires l != nil && l.ssnFlags != nil && l.srmFlags != nil && ifa != nil && ifa.cfg != nil && l.lspdu != nil
+//@   old d *packet.LSPDU = l.lspdu
+//@   ensures !spec_ssn(l, ifa) && l.lspdu == d
+
+//@ contract (*lsdb).processLSP
+//@   props C32
+//@   nosafety
+//@   requires l != nil && lspdu != nil && l.lsps != nil && ifa != nil && ifa.cfg != nil
+//@   requires spec_hasLSP(l, lspdu.LSPID) ==> l.lsps[lspdu.LSPID] != nil && l.lsps[lspdu.LSPID].lspdu != nil && l.lsps[lspdu.LSPID].ssnFlags != nil && l.lsps[lspdu.LSPID].srmFlags != nil && verif_mapid(l.lsps[lspdu.LSPID].ssnFlags) != verif_mapid(l.lsps[lspdu.LSPID].srmFlags)
+//@   logical g packet.LSPID
+//@   old hadg bool = spec_hasLSP(l, g)
+//@   old eg *lsdbEntry = l.lsps[g]
+//@   old had bool = spec_hasLSP(l, lspdu.LSPID)
+//@   old e0 *lsdbEntry = l.lsps[lspdu.LSPID]
+//@   old seq0 uint32 = ite(spec_hasLSP(l, lspdu.LSPID), l.lsps[lspdu.LSPID].lspdu.SequenceNumber, 0)
+//@   ensures spec_hasLSP(l, lspdu.LSPID) && l.lsps[lspdu.LSPID] != nil && l.lsps[lspdu.LSPID].lspdu != nil
+//@   ensures !had || lspdu.SequenceNumber > seq0 ==> l.lsps[lspdu.LSPID].lspdu == lspdu
+//@   ensures had && lspdu.SequenceNumber <= seq0 ==> l.lsps[lspdu.LSPID] == e0 && l.lsps[lspdu.LSPID].lspdu.SequenceNumber == seq0
+//@   ensures had && lspdu.SequenceNumber < seq0 ==> !spec_ssn(l.lsps[lspdu.LSPID], ifa)
+//@   ensures !had || lspdu.SequenceNumber >= seq0 ==> spec_ssn(l.lsps[lspdu.LSPID], ifa) && !spec_srm(l.lsps[lspdu.LSPID], ifa)
+//@   ensures g != lspdu.LSPID ==> spec_hasLSP(l, g) == hadg && l.lsps[g] == eg
+//@   ensures l.srv != nil && len(l.srv.nets) > 0 && l.srv.nets[0] != nil && lspdu.LSPID.SystemID == l.srv.nets[0].SystemID ==> l.srv.sequenceNumberL2 >= lspdu.SequenceNumber
+
+// The local sequence number never goes down; after seeing a copy of the own
+// LSP it is at least that copy's number (the next LSP is numbered above it).
+//@ contract (*Server).raiseL2SequenceNumber
+//@   props C32
+//@   nosafety
+//@   requires s != nil
+//@   old n uint32 = s.sequenceNumberL2
+//@   ensures s.sequenceNumberL2 >= seen && s.sequenceNumberL2 >= n && result == (seen > n)
+
+// One entry of a received CSNP (ISO 10589 7.3.15.2 b): same as stored - no
+// need to send it (SRM cleared); stored copy newer - send it, nothing to
+// request (SSN cleared); stored copy older - request the newer one (SSN set,
+// SRM cleared); unknown - remember it with sequence number 0 and request it.
+//@ contract (*lsdb).processCSNPLSPEntry
+//@   props C32
+//@   nosafety
+//@   requires l != nil && lspEntry != nil && l.lsps != nil && from != nil && from.cfg != nil
+//@   requires spec_hasLSP(l, lspEntry.LSPID) ==> l.lsps[lspEntry.LSPID] != nil && l.lsps[lspEntry.LSPID].lspdu != nil && l.lsps[lspEntry.LSPID].ssnFlags != nil && l.lsps[lspEntry.LSPID].srmFlags != nil && verif_mapid(l.lsps[lspEntry.LSPID].ssnFlags) != verif_mapid(l.lsps[lspEntry.LSPID].srmFlags)
+//@   requires !spec_hasLSP(l, lspEntry.LSPID) ==> l.lsps[lspEntry.LSPID] == nil
+//@   old had bool = spec_hasLSP(l, lspEntry.LSPID)
+//@   old e0 *lsdbEntry = l.lsps[lspEntry.LSPID]
+//@   old seq0 uint32 = ite(spec_hasLSP(l, lspEntry.LSPID), l.lsps[lspEntry.LSPID].lspdu.SequenceNumber, 0)
+//@   ensures spec_hasLSP(l, lspEntry.LSPID) && l.lsps[lspEntry.LSPID] != nil && l.lsps[lspEntry.LSPID].lspdu != nil
+//@   ensures !had ==> l.lsps[lspEntry.LSPID].lspdu.SequenceNumber == 0 && l.lsps[lspEntry.LSPID].lspdu.LSPID == lspEntry.LSPID && spec_ssn(l.lsps[lspEntry.LSPID], from)
+//@   ensures had ==> l.lsps[lspEntry.LSPID] == e0 && e0.lspdu.SequenceNumber == seq0
+//@   ensures had && seq0 == lspEntry.SequenceNumber && e0.lspdu.LSPID == lspEntry.LSPID ==> !spec_srm(e0, from)
+//@   ensures had && seq0 > lspEntry.SequenceNumber ==> !spec_ssn(e0, from)
+//@   ensures had && seq0 < lspEntry.SequenceNumber ==> spec_ssn(e0, from) && !spec_srm(e0, from)
+
+// The local LSP's sequence number grows by one per generation and is never 0.
+//@ contract (*Server).nextL2SequencenNumber
+//@   props C32
+//@   nosafety
+//@   requires s != nil
+//@   old n uint32 = s.sequenceNumberL2
+//@   ensures result != 0 && result == ite(n+1 == 0, 1, n+1) && s.sequenceNumberL2 == result
+
+// Every hello sets the hold deadline it announces (a shorter holding time takes
+// effect at once).
+//@ contract (*neighbor).updateTimeout
+//@   props C31
+//@   nosafety
+//@   requires n != nil
+//@   ensures n.timeout == to
